@@ -78,7 +78,9 @@ def gen_case(rng, **opts):
         insts = [i for f in program["features"] for i in iter_scenario_instances(f)]
         for _ in range(rng.choice([1, 1, 2]) if insts else 0):
             i = rng.choice(insts)
-            names.append(rng.choice([i["name"].split(" ")[0], "S\\d*[02468]$", "O", "@1\\.1", "^F0", i["name"][:4]]))
+            names.append(rng.choice([i["name"].split(" ")[0], "S\\d*[02468]$", "O", "@1\\.1", "^F0", i["name"][:4],
+                                     # patterns that pick single rows of an outline other than the first one
+                                     "@\\d\\.2", "@\\d\\.[23]", "@2\\.1", "E2$"]))
         cfg["names"] = names or None
         args.extend("--name=%s" % n for n in names)
     if rng.random() < opts.get("p_user_skip", 0.0):
